@@ -1,23 +1,11 @@
 (* Model of the HandValidator trait and its per-size implementations (src/cards/mod.rs, two.rs ..
    seven.rs): validity, uniqueness tests as written, sorting, suit shifting of whole hands.
    A hand is the list of its slot words, in slot order. *)
-From Coq Require Import Sorting.Mergesort Orders.
-From CKC Require Import Base.Prelude Model.Card.
+From CKC Require Import Base.Prelude Base.SortN Model.Card.
 From CKC Require Import Gen.Consts.
 Open Scope N_scope.
 
-(* ---- sort_unstable is modelled by its specification: the ascending arrangement ------------ *)
-Module NLeb <: TotalLeBool.
-  Definition t := N.
-  Definition leb := N.leb.
-  Theorem leb_total : forall a1 a2, leb a1 a2 = true \/ leb a2 a1 = true.
-  Proof. intros a b. unfold leb. destruct (N.leb_spec a b); [left; reflexivity|right]. apply N.leb_le. lia. Qed.
-End NLeb.
-Module NSort := Sort NLeb.
-
-Definition sort_asc (ws : list N) : list N := NSort.sort ws.
-(* sort() / sort_in_place(): sort_unstable then reverse *)
-Definition sort_desc (ws : list N) : list N := rev (sort_asc ws).
+(* sort() / sort_in_place(): [sort_desc] of Base/SortN.v (sort_unstable then reverse) *)
 
 (* ---- trait defaults ------------------------------------------------------------------------ *)
 Definition contain_blank (ws : list N) : bool := existsb (fun c => c =? CN_BLANK) ws.
@@ -39,11 +27,6 @@ Definition are_unique4 (ws : list N) : bool :=
 Definition are_unique5 (ws : list N) : bool :=
   negb (existsb (fun i => memN (nth (i - 1) ws 0) (skipn i ws)) [1; 2; 3; 4]%nat).
 (* Six / Seven: sort descending, then scan with last = u32::MAX *)
-Fixpoint strictly_desc_from (last : N) (ws : list N) : bool :=
-  match ws with
-  | [] => true
-  | c :: r => if last <=? c then false else strictly_desc_from c r
-  end.
 Definition are_unique_sorted (ws : list N) : bool := strictly_desc_from U32MAX (sort_desc ws).
 
 Definition are_unique (ws : list N) : bool :=
